@@ -145,7 +145,14 @@ func c01R1(p *core.Program, r *core.Report, w *core.Func, parse *ast.CallExpr, f
 	r.Check(okSrc, rule, w, "the parsed source is the assembled buffer", parse.Pos(), "ParseFile(fset, name, src.Bytes(), ...)", "ParseFile does not parse the bytes of the assembled source buffer")
 	// parse mode keeps comments
 	mode := core.ExprStr(parse.Args[3])
-	r.Check(strings.Contains(mode, "ParseComments"), rule, w, "comments are kept when parsing", parse.Pos(), "parser.ParseComments in the mode", "the assembled source is parsed without ParseComments: the generator header and rendered comments are dropped from the file")
+	keeps := strings.Contains(mode, "ParseComments")
+	if tv, okc := info.Types[parse.Args[3]]; okc && tv.Value != nil {
+		// the mode as a value: a named constant for the flags is the same mode
+		if v, exact := constant.Uint64Val(constant.ToInt(tv.Value)); exact {
+			keeps = v&uint64(parser.ParseComments) != 0
+		}
+	}
+	r.Check(keeps, rule, w, "comments are kept when parsing", parse.Pos(), "parser.ParseComments in the mode", "the assembled source is parsed without ParseComments: the generator header and rendered comments are dropped from the file")
 }
 
 func c01R2(p *core.Program, r *core.Report, w *core.Func, parse *ast.CallExpr, fileV, fsetV *types.Var) {
@@ -575,9 +582,20 @@ func c01R4(p *core.Program, r *core.Report, w *core.Func, parse *ast.CallExpr) {
 		}
 		ok := false
 		for _, c := range core.Calls(f.Body, true) {
+			if fld := core.FieldOf(f.Info(), recvOf(c)); !isRole(p, fld, "ctx.genfile") {
+				continue
+			}
 			if strings.HasSuffix(core.CalleeName(f.Info(), c), "SnippetWriter).Render") {
-				if fld := core.FieldOf(f.Info(), recvOf(c)); isRole(p, fld, "ctx.genfile") {
-					ok = true
+				ok = true // the file's (embedded) snippet writer
+			}
+			// ... or the file's own Render method, which is itself a single forward to its snippet writer
+			if h := p.FuncOfObj(core.CalleeFunc(f.Info(), c)); h != nil && h.Body != nil && len(h.Body.List) == 1 && h.Decl != nil && h.Decl.Recv != nil {
+				for _, hc := range core.Calls(h.Body, true) {
+					if strings.HasSuffix(core.CalleeName(h.Info(), hc), "SnippetWriter).Render") && len(hc.Args) == 1 && len(c.Args) == 1 {
+						if pv := core.VarOf(h.Info(), hc.Args[0]); pv != nil && isParamOf(h, pv) {
+							ok = true
+						}
+					}
 				}
 			}
 		}
